@@ -382,7 +382,33 @@ def shared_trees(rng):
     leaf = rng.choice([D.Count(), D.Sum("x"), D.Bin(2, 0, 4, "x"), D.Average("y"), D.SparselyBin(2, "x")])
     X = dict(leaf, share="X")
     other = rng.choice([D.Count(), D.Sum("y")])
-    k = rng.randrange(14)
+    k = rng.randrange(19)
+    if k >= 14:
+        # a container's own child (a bin, a flow, the numerator, the cut) taken out of it and installed at a second
+        # position as well; the container is as constructed, or a copy() / zero() / sum of it
+        val = rng.choice([D.Count(), D.Sum("y"), D.Bin(2, 0, 4, "y")])
+        hosts = [(D.Bin(2, 0, 4, "x", val), ["first", "last", "nan", "under", "over"], val, D.Count()),
+                 (D.CentrallyBin([0, 2, 4], "x", val), ["first", "last", "nan"], val, D.Count()),
+                 (D.IrregularlyBin([1, 3], "x", val), ["first", "last", "nan"], val, D.Count()),
+                 (D.Stack([1, 3], "x", val), ["first", "last", "nan"], val, D.Count()),
+                 (D.Fraction("s", val), ["num", "den"], val, val),
+                 (D.Select("s", val), ["cut"], val, val)]
+        host, poss, vd, fd = rng.choice(hosts)
+        pos = rng.choice(poss)
+        child = fd if pos in ("nan", "under", "over") else vd
+        H = dict(host, xid="E", xpos=pos, xvia=rng.choice(["", "", "copy", "zero", "add"]))
+        E = dict(child, share="E")
+        other = rng.choice([D.Count(), D.Sum("y")])
+        if k == 14:
+            return D.UntypedLabel(a=H, b=E), True
+        if k == 15:
+            return D.Branch(H, other, E), True
+        if k == 16:   # below another container
+            return D.UntypedLabel(a=H, b=D.Select("s", E)), True
+        if k == 17:
+            return D.Branch(D.Branch(H, other), D.Label(p=E)), True
+        # the child taken out but installed nowhere else: nothing is shared
+        return D.UntypedLabel(a=H, b=dict(child, share="F")), False
     if k >= 9:
         # objects installed at flow positions by assignment (h.nanflow = obj): the constructors copy their flow
         # arguments, so this is the only way one object gets to sit there.  The interesting case is an object that
